@@ -84,13 +84,17 @@ class SQLParser(Parser):
 
     @_('SET expr')
     def set(self, p):
-        return Set(arg=p.expr)
+        expr = p.expr
+        if not (isinstance(expr, BinaryOperation) and expr.op == '=' and len(expr.args) == 2):
+            raise ParsingException(f'Expected "SET name = value", got "SET {expr}"')
+        return Set(name=expr.args[0], value=expr.args[1])
 
     @_('SET id identifier')
     def set(self, p):
         if not p.id.lower() == 'names':
             raise ParsingException(f'Expected "SET names", got "SET {p.id}"')
-        return Set(category=p.id.lower(), arg=p.identifier)
+        value = Constant(p.identifier.parts[-1], with_quotes=False)
+        return Set(category=p.id.lower(), value=value)
 
     # Show
     @_('show WHERE expr')
